@@ -23,4 +23,18 @@ static void swap(int op)
     REACH;
 }
 #define SWAP(OP) void h_c14_swap_##OP(void) { swap(K_##OP); }
+/* the callee contract used by the modular inline-if job, proved on the real areEquivalent */
+void w_c14_equiv(int ka, unsigned wa, int kb, unsigned wb, int* ab, int* ba, int* same_base, int* da, int* a_is_double);
+void h_c14_equiv_contract(void)
+{
+    int ka, kb, ab, ba, sb, da, ad; unsigned wa, wb;
+    __CPROVER_assume(VALID_BASE(ka) && VALID_BASE(kb) && wa <= 511 && wb <= 511);
+    w_c14_equiv(ka, wa, kb, wb, &ab, &ba, &sb, &da, &ad);
+    __CPROVER_assert((ab != 0) == (ba != 0), "c14.areEquivalent.(S)-symmetric");
+    __CPROVER_assert(!ab || sb, "c14.areEquivalent.(K)-only-types-of-the-same-value-base-kind-are-equivalent");
+    __CPROVER_assert(da == (ad ? 3 : 0), "c14.areEquivalent.(P)-the-primitive-double-is-equivalent-to-exactly-the-double-types");
+    if (ab) __CPROVER_assert(0, "reach:equivalent");
+    if (!ab) __CPROVER_assert(0, "reach:not-equivalent");
+    REACH;
+}
 SWAP(PLUS) SWAP(MULT) SWAP(MIN) SWAP(MAX) SWAP(EQ) SWAP(NEQ) SWAP(AND) SWAP(OR) SWAP(BIT_AND) SWAP(BIT_OR) SWAP(BIT_XOR) SWAP(INLINE_IF)
